@@ -242,6 +242,7 @@ pub struct Machine<'p> {
     pub stack: Region,
     pub flags: Option<(i64, i64)>,
     pub flags_def: bool,
+    pub flags_origin: &'static str,
     pub max_written: u64,
     pub prints: Vec<PrintEv>,
     pub stats: EmuStats,
@@ -255,6 +256,11 @@ enum Stop {
 }
 
 const RET_SENTINEL: u64 = 0x0000_dead_0000_beef;
+
+/// where an undefined value came from (the property checks route events by this phrase)
+fn origin(v: u64) -> &'static str {
+    if v >> 48 == 0xDEAD { " (value clobbered by an external call)" } else { " (never initialised)" }
+}
 
 impl<'p> Machine<'p> {
     fn viol<T>(kind: ViolationKind, msg: String) -> Result<T, Stop> {
@@ -294,7 +300,7 @@ impl<'p> Machine<'p> {
 
     fn addr_of(&mut self, base: u8, off: i64) -> Result<u64, Stop> {
         if !self.rdef[base as usize] {
-            return Self::viol(ViolationKind::Poison, format!("address computed from undefined register {}", REGS[base as usize]));
+            return Self::viol(ViolationKind::Poison, format!("address computed from undefined register {}{}", REGS[base as usize], origin(self.regs[base as usize])));
         }
         Ok(self.regs[base as usize].wrapping_add(off as u64))
     }
@@ -430,6 +436,7 @@ pub fn run(prog: &Program, args: &[i64], cfg: &EmuConfig) -> EmuResult {
         stack: Region::new(STACK_TOP - STACK_SIZE, STACK_SIZE, false),
         flags: None,
         flags_def: true,
+        flags_origin: "",
         max_written: 0,
         prints: Vec::new(),
         stats: EmuStats::default(),
@@ -527,6 +534,7 @@ pub fn run(prog: &Program, args: &[i64], cfg: &EmuConfig) -> EmuResult {
                     let (y, dy) = m.read(b)?;
                     m.flags = Some((x as i64, y as i64));
                     m.flags_def = dx && dy;
+                    m.flags_origin = if !dx { origin(x) } else if !dy { origin(y) } else { "" };
                     Ok(pc + 1)
                 }
                 Ins::Cqo => {
@@ -538,7 +546,7 @@ pub fn run(prog: &Program, args: &[i64], cfg: &EmuConfig) -> EmuResult {
                 Ins::Idiv(o) => {
                     let (dv, dd) = m.read(o)?;
                     if !dd {
-                        return Machine::viol(ViolationKind::Poison, "division by an undefined value".into());
+                        return Machine::viol(ViolationKind::Poison, format!("division by an undefined value{}", origin(dv)));
                     }
                     let lo = m.regs[RAX as usize];
                     let hi = m.regs[RDX as usize];
@@ -562,7 +570,7 @@ pub fn run(prog: &Program, args: &[i64], cfg: &EmuConfig) -> EmuResult {
                 }
                 Ins::JmpReg(r) => {
                     if !m.rdef[*r as usize] {
-                        return Machine::viol(ViolationKind::Poison, format!("indirect jump through undefined register {}", REGS[*r as usize]));
+                        return Machine::viol(ViolationKind::Poison, format!("indirect jump through undefined register {}{}", REGS[*r as usize], origin(m.regs[*r as usize])));
                     }
                     let a = m.regs[*r as usize];
                     match prog.addr_to_idx.get(&a) {
@@ -576,7 +584,7 @@ pub fn run(prog: &Program, args: &[i64], cfg: &EmuConfig) -> EmuResult {
                         return Machine::viol(ViolationKind::Poison, "conditional jump without a preceding comparison".into());
                     };
                     if !m.flags_def {
-                        return Machine::viol(ViolationKind::Poison, "conditional jump depends on an undefined value".into());
+                        return Machine::viol(ViolationKind::Poison, format!("conditional jump depends on an undefined value{}", m.flags_origin));
                     }
                     let t = match cc {
                         Cc::E => a == b,
@@ -617,7 +625,7 @@ pub fn run(prog: &Program, args: &[i64], cfg: &EmuConfig) -> EmuResult {
                         return Machine::viol(ViolationKind::Abi, format!("stack pointer {sp:#x} not 16-byte aligned at call {f}"));
                     }
                     if !m.rdef[RDI as usize] {
-                        return Machine::viol(ViolationKind::Poison, format!("argument of {f} is undefined"));
+                        return Machine::viol(ViolationKind::Poison, format!("argument of {f} is undefined{}", origin(m.regs[RDI as usize])));
                     }
                     m.prints.push(PrintEv { value: m.regs[RDI as usize] as i64, newline });
                     if m.prints.len() > 100_000 {
@@ -655,7 +663,7 @@ pub fn run(prog: &Program, args: &[i64], cfg: &EmuConfig) -> EmuResult {
                         }
                     }
                     if !m.rdef[RAX as usize] {
-                        return Machine::viol(ViolationKind::Poison, "result register undefined at return".into());
+                        return Machine::viol(ViolationKind::Poison, format!("result register undefined at return{}", origin(m.regs[RAX as usize])));
                     }
                     Err(Stop::Done(m.regs[RAX as usize] as i64))
                 }
